@@ -1134,6 +1134,8 @@ gen_exam(Src& s, int container)
   e["mod"] = s.pick(mods);
   e["orient"] = int(s.range(0, 3));
   e["rot"] = int(s.range(0, 5));
+  if (!g_no_exclude && (e["rot"].get<int>() == int(PatientPosition::left) || e["rot"].get<int>() == int(PatientPosition::right)) && !s.chance(1, 8))
+    e["rot"] = int(s.pick(std::vector<int>{ 0, 1, 4, 5 })); // F4 (known finding): left/right are written as "other"
   // time frames: precondition of TimeFrameDefinitions(vector<pair>): in sequence, start <= end (error() otherwise)
   int nframes;
   if (container == SINGLE)
@@ -1257,6 +1259,9 @@ known_signature(const json& c)
 {
   if (g_no_exclude)
     return "";
+  const int rot = c["exam"]["rot"].get<int>();
+  if (rot == int(PatientPosition::left) || rot == int(PatientPosition::right))
+    return "C10:patient-rotation-left-right-written-as-other";
   return "";
 }
 
